@@ -101,6 +101,13 @@ Theorem C06_defaults_not_filled_by_server : forall ms impl init url q mi, wf_tab
 Proof. exact fewer_columns_not_invoked. Qed.
 Print Assumptions C06_defaults_not_filled_by_server.
 
+(* socket, request routed through the shared-memory side channel: the outcome depends on the resolved batch only --
+   with the two iff theorems above (stated on q_cols, the resolved batch): invoked iff the RESOLVED batch conforms *)
+Theorem C06_shm_routed_judged_on_resolved_batch : forall ms impl q i,
+  serve_one std_cfg ms impl (with_inline q i) = serve_one std_cfg ms impl (with_inline q None).
+Proof. exact shm_pointer_schema_irrelevant. Qed.
+Print Assumptions C06_shm_routed_judged_on_resolved_batch.
+
 (* ---- non-vacuity: f(a: int64 not null, c: float64 nullable = default) --------------------------------------- *)
 Definition ex_a : str := [97].
 Definition ex_c : str := [99].
@@ -114,7 +121,7 @@ Definition ex_mi : minfo := {|
 Definition ex_val : pyval :=
   {| v_bytes := false; v_str := false; v_list := false; v_enum := None; v_dc := None; v_dict := None; v_fset := None |}.
 Definition ex_req (cols : list (field * cell)) : request :=
-  {| q_method := MKName ex_f; q_version := VOk; q_cols := cols; q_rows := 1 |}.
+  {| q_method := MKName ex_f; q_version := VOk; q_cols := cols; q_rows := 1; q_inline := None |}.
 Definition ex_good := ex_req [({| f_name := ex_a; f_type := 0; f_null := false |}, CVal ex_val);
                               ({| f_name := ex_c; f_type := 1; f_null := true |}, CNull)].
 
@@ -147,4 +154,10 @@ Proof. vm_compute; reflexivity. Qed.
 Example C06_ex_null_required :
   o_reason (serve_one std_cfg [ex_mi] (fun _ _ => BOk)
      (ex_req [({| f_name := ex_a; f_type := 0; f_null := false |}, CNull); ({| f_name := ex_c; f_type := 1; f_null := true |}, CNull)])) = RParamNone ex_a.
+Proof. vm_compute; reflexivity. Qed.
+(* a pointer batch with the declared schema in front of a retyped resolved batch: still refused *)
+Example C06_ex_shm_pointer_declared_resolved_retyped :
+  o_reason (serve_one std_cfg [ex_mi] (fun _ _ => BOk)
+    (with_inline (ex_req [({| f_name := ex_a; f_type := 2; f_null := false |}, CVal ex_val); ({| f_name := ex_c; f_type := 1; f_null := true |}, CNull)])
+                 (Some (mi_schema ex_mi)))) = RType 0.
 Proof. vm_compute; reflexivity. Qed.
